@@ -23,6 +23,7 @@ def run(ctx):
                        'len(agents), shapes and pairwise np.shares_memory at every hook and at return, poke test at return')
     if ok:
         _ir.trace_inclusion(ctx, meta)
+        _ir.state_replay(ctx, meta)
     _ir.monitor(ctx)
     _ir.translation_failures(ctx, errors)
     ctx.sample({'theorem': 'C07_ir: forall p ... Inv n sp x0 -> run p o x0 = Some (x\', evs, o\') -> at every EvHook y / EvDump y and for x\': '
